@@ -50,3 +50,22 @@ Example C14_examples :
   fst (doc_len true (of_string "x"%string)) <> VOk /\
   fst (doc_len true (of_string "  "%string)) = VErr code_empty_json 0%N.
 Proof. vm_compute. repeat split; try reflexivity; discriminate. Qed.
+
+(* ---------- Enum.Len (rules/enum/enum.go; model EnumScanner.enum_len) ---------- *)
+From JS Require Enum.EnumScanner Enum.EnumProofs.
+
+(* what Len returns is a prefix length: not longer than the text; when positive it ends on a
+   byte that is not a blank; it is positive exactly when the text is not blank (a blank or empty
+   text has Len 0: EnumProofs.enum_len_prefix_counterexample) *)
+Theorem C14_enum_len_prefix : forall bs n, EnumScanner.enum_len bs = (EnumScanner.VOk, n) ->
+  (N.to_nat n <= List.length bs)%nat /\
+  ((0 < n)%N -> forall c, nth_error bs (N.to_nat n - 1) = Some c -> EnumScanner.is_blank c = false) /\
+  ((0 < n)%N <-> forallb EnumScanner.is_blank bs = false).
+Proof. exact EnumProofs.enum_len_prefix. Qed.
+Print Assumptions C14_enum_len_prefix.
+
+(* Len of that prefix is the same number *)
+Theorem C14_enum_len_stable : forall bs n, EnumScanner.enum_len bs = (EnumScanner.VOk, n) ->
+  EnumScanner.enum_len (firstn (N.to_nat n) bs) = (EnumScanner.VOk, n).
+Proof. exact EnumProofs.enum_len_stable. Qed.
+Print Assumptions C14_enum_len_stable.
